@@ -100,8 +100,10 @@ pub fn run_reuse(args: &Args, report: &mut Report) {
                 continue;
             }
         };
-        let target = ["read.pinned.unlocked", "read.pinned", "read.before_pread", "read.after_pread", "range.entry", "retire.before_markers", "retire.before_release", "deferred.before_pread", "flush.before_publish"][rid as usize % 9];
-        let ctl = Arc::new(SchedCtl::new(args.seed ^ rid, 30, 200).target(target, 300, 400));
+        let target = ["read.pinned.unlocked", "read.before_pin", "read.pinned", "read.before_pread", "read.after_pread", "range.entry", "retire.before_markers", "read.before_pin", "retire.before_release", "deferred.before_pread", "flush.before_publish"][rid as usize % 11];
+        // a reader held back before it pins (it already holds the record it looked up) meets generations that
+        // have been superseded, made durable elsewhere and retired in the meantime
+        let ctl = Arc::new(SchedCtl::new(args.seed ^ rid, 30, 200).target(target, 300, if target == "read.before_pin" { 2500 } else { 400 }));
         hub().set_sched(Some(ctl.clone()));
         let nwriters = 2 + rng.usize_below(2);
         let nreaders = 2 + rng.usize_below(3);
@@ -567,9 +569,14 @@ pub fn run_scan(args: &Args, report: &mut Report) {
     for run in 0..runs {
         let rid = run * args.num("shards", 1).max(1) + shard;
         let mut rng = Rng::derive(args.seed, rid, 0x5ca9);
-        let persistent = rng.chance(1, 2);
+        // every third run: a persistent store without cache where two hot churn keys are rewritten and flushed in
+        // a tight loop while readers are held back before they pin an extent - the generation a scan looked up is
+        // superseded, durable elsewhere and retired before it can be read, again and again, until the read gives
+        // up with a stale-extent error in the middle of a scan
+        let hammer = rid % 3 == 0;
+        let persistent = hammer || rng.chance(1, 2);
         let mut cfg = if persistent { Cfg::disk(16 + 8192) } else { Cfg::memory() };
-        cfg.cache = rng.chance(1, 2);
+        cfg.cache = !hammer && rng.chance(1, 2);
         let path = format!("{}/scan-{rid}.feox", dir.0);
         let store = match storeutil::open(&cfg, if persistent { Some(&path) } else { None }) {
             Ok(s) => Arc::new(s),
@@ -597,9 +604,41 @@ pub fn run_scan(args: &Args, report: &mut Report) {
         for k in &dead {
             store.delete(k).unwrap();
         }
-        let ctl = Arc::new(SchedCtl::new(args.seed ^ rid, 10, 50).target("range.entry", if big { 10 } else { 150 }, 100));
+        let mut ctl = SchedCtl::new(args.seed ^ rid, 10, 50).target("range.entry", if big { 10 } else { 150 }, 100);
+        if hammer {
+            ctl = ctl.target("read.before_pin", 700, 3000);
+        }
+        let ctl = Arc::new(ctl);
         hub().set_sched(Some(ctl.clone()));
         let stop = Arc::new(AtomicBool::new(false));
+        let stale_seen = Arc::new(AtomicU64::new(0));
+        let mut hammers = Vec::new();
+        if hammer {
+            let (hstore, hchurn, hstop) = (store.clone(), churn.clone(), stop.clone());
+            hammers.push(std::thread::spawn(move || {
+                let (store, churn, stop) = (hstore, hchurn, hstop);
+                let mut seq = 0u32;
+                while !stop.load(Ordering::Relaxed) {
+                    for k in churn.iter().take(2) {
+                        seq += 1;
+                        let _ = store.insert(k, &values::make(Tag { key_id: key_id(k), writer: 9, seq }, 100));
+                        let _ = store.flush();
+                    }
+                }
+            }));
+            // evidence that the condition arises at all: point reads of the hot keys that end in a stale-extent error
+            let (pstore, pchurn, pstop, pstale) = (store.clone(), churn.clone(), stop.clone(), stale_seen.clone());
+            hammers.push(std::thread::spawn(move || {
+                let (store, churn, stop, stale_seen) = (pstore, pchurn, pstop, pstale);
+                while !stop.load(Ordering::Relaxed) {
+                    for k in churn.iter().take(2) {
+                        if let Err(FeoxError::StaleExtent) = store.get(k) {
+                            stale_seen.fetch_add(1, Ordering::Relaxed);
+                        }
+                    }
+                }
+            }));
+        }
         let nchurn = 2 + rng.usize_below(3);
         let mut chandles = Vec::new();
         for c in 0..nchurn {
@@ -720,8 +759,15 @@ pub fn run_scan(args: &Args, report: &mut Report) {
         for h in chandles {
             churn_ops += h.join().unwrap_or(0);
         }
+        for h in hammers {
+            let _ = h.join();
+        }
         hub().set_sched(None);
         report.count("churn_ops", churn_ops);
+        if hammer {
+            report.count("hammer_runs", 1);
+            report.count("stale_extent_errors_seen_by_point_reads", stale_seen.load(Ordering::Relaxed));
+        }
         report.count("runs", 1);
         let replay = json!({"engine": "conc", "mode": "scan", "seed": args.seed, "run": rid, "config": cfg.label(), "stable_keys": nstable});
         for (sig, msg) in all_issues.into_iter().take(3) {
